@@ -1,13 +1,16 @@
 (* C14 — Configured resource limits are enforced exactly (rules validator). *)
-From CE Require Import Model.Rules Model.RulesSpec Proofs.RulesInvariants Proofs.RulesStructure Proofs.RulesLimits.
+From CE Require Import Model.Rules Model.RulesSpec Proofs.RulesInvariants Proofs.RulesStructure Proofs.RulesLimits Proofs.RulesChunks.
 Open Scope N_scope.
 
 (* Usage is measured by independent folds over the event list (Model/RulesSpec.v): [object_usage] (events
    for which the receiver calls NotifyNewObject - record types count), [depth_usage] (deepest nesting of
    lists / maps / edges / nodes / records / record types over all prefixes), [whole_array_usage] (bytes of the
-   largest array delivered in one event), [ident_usage] (longest identifier), [marker_usage] (marker events;
-   the validator limits them by MaxLocalReferenceCount - MaxMarkerCount is never read and the model's
-   configuration has no such field).  [cfg_le a b]: b is at least as generous as a (array limit 0 = none). *)
+   largest array delivered in one event), [chunked_array_usage] (largest sum of the byte counts announced by
+   the chunk headers of one array, summed as the validator does, 64-bit wrap-around included),
+   [ident_usage] (longest identifier), [marker_usage] (marker events; the validator limits them by
+   MaxLocalReferenceCount - MaxMarkerCount is never read and the model's configuration has no such field).
+   [cfg_le a b]: b is at least as generous as a (array limit 0 = none).  [length_ok cfg n]: n is within the
+   array-size limit of cfg. *)
 
 (* (a) Raising any limit never turns acceptance into rejection. *)
 Theorem C14_raising_limits_never_rejects :
@@ -20,45 +23,47 @@ Theorem C14_raising_limits_never_rejects_document :
 Proof. exact accepts_document_mono. Qed.
 Print Assumptions C14_raising_limits_never_rejects_document.
 
-(* (b) Necessity: every accepted event list is within the object, depth, array and identifier limits. *)
+(* (b) Necessity: every accepted event list is within the object, depth, array (whole and chunked) and
+   identifier limits. *)
 Theorem C14_limits_necessary :
   forall cfg es, accepts cfg es = true ->
     object_usage es <= max_object_count cfg /\ depth_usage es <= max_container_depth cfg /\
-    length_ok cfg (whole_array_usage es) = true /\ ident_usage es <= max_identifier_length cfg.
-Proof. exact limits_necessary. Qed.
+    length_ok cfg (whole_array_usage es) = true /\ length_ok cfg (chunked_array_usage es) = true /\
+    ident_usage es <= max_identifier_length cfg.
+Proof. exact limits_necessary_full. Qed.
 Print Assumptions C14_limits_necessary.
 
-(* (b) Sufficiency: a list that more generous limits accept and whose usage is within the limits of [cfg]
-   is accepted under [cfg] - a limit that is not exceeded never causes a rejection.
-   Side condition [chunk_side]: no array-size limit, or no chunked arrays in the list. *)
+(* (b) Sufficiency: a list that more generous limits accept and whose usage (all six measures) is within the
+   limits of [cfg] is accepted under [cfg] - a limit that is not exceeded never causes a rejection. *)
 Theorem C14_limits_sufficient :
-  forall cfg cfg' es, cfg_le cfg cfg' -> accepts cfg' es = true -> within_limits cfg es -> chunk_side cfg es ->
-    accepts cfg es = true.
-Proof. exact limits_sufficient. Qed.
+  forall cfg cfg' es, cfg_le cfg cfg' -> accepts cfg' es = true -> within_limits_full cfg es -> accepts cfg es = true.
+Proof. exact limits_sufficient_full. Qed.
 Print Assumptions C14_limits_sufficient.
 
 Theorem C14_limits_sufficient_document :
-  forall cfg cfg' es, cfg_le cfg cfg' -> accepts_document cfg' es = true -> within_limits cfg es -> chunk_side cfg es ->
+  forall cfg cfg' es, cfg_le cfg cfg' -> accepts_document cfg' es = true -> within_limits_full cfg es ->
     accepts_document cfg es = true.
-Proof. exact limits_sufficient_document. Qed.
+Proof. exact limits_sufficient_full_document. Qed.
 Print Assumptions C14_limits_sufficient_document.
 
-(* (b) Exactness for the object, depth, identifier and whole-array limits (marker limit not binding). *)
+(* (b) Exactness for the object, depth, identifier and array limits, when the marker limit is not the
+   binding one. *)
 Theorem C14_limits_exact_partial :
-  forall cfg es, marker_usage es <= max_local_reference_count cfg -> chunk_side cfg es ->
+  forall cfg es, marker_usage es <= max_local_reference_count cfg ->
     (accepts cfg es = true <->
      (exists cfg', cfg_le cfg cfg' /\ accepts cfg' es = true) /\
      object_usage es <= max_object_count cfg /\ depth_usage es <= max_container_depth cfg /\
-     length_ok cfg (whole_array_usage es) = true /\ ident_usage es <= max_identifier_length cfg).
-Proof. exact limits_exact. Qed.
+     length_ok cfg (whole_array_usage es) = true /\ length_ok cfg (chunked_array_usage es) = true /\
+     ident_usage es <= max_identifier_length cfg).
+Proof. exact limits_exact_full. Qed.
 Print Assumptions C14_limits_exact_partial.
 
-(* ... in particular with these three limits set to exactly the measured usage the list is still accepted
-   (and by necessity, with one of them lower it is not). *)
+(* ... in particular with the object, depth and identifier limits set to exactly the measured usage the list is
+   still accepted (and by necessity, with one of them lower it is not). *)
 Theorem C14_limits_tight :
-  forall cfg es, accepts cfg es = true -> marker_usage es <= max_local_reference_count cfg -> chunk_side cfg es ->
+  forall cfg es, accepts cfg es = true -> marker_usage es <= max_local_reference_count cfg ->
     accepts (usage_cfg cfg es) es = true.
-Proof. exact limits_tight. Qed.
+Proof. exact limits_tight_full. Qed.
 Print Assumptions C14_limits_tight.
 
 (* The number of registered markers (the quantity compared with the limit) never exceeds the number of
@@ -68,17 +73,16 @@ Theorem C14_registered_markers_bounded :
 Proof. exact registered_markers_bounded. Qed.
 Print Assumptions C14_registered_markers_bounded.
 
-(* The full statement (all six measures, chunked arrays included), kept for reference: *)
+(* The full statement (all six measures necessary and sufficient), kept for reference: *)
 Definition C14_limits_exact_full : Prop :=
   forall cfg es,
     accepts_document cfg es = true <->
     (exists cfg', cfg_le cfg cfg' /\ accepts_document cfg' es = true) /\
     object_usage es <= max_object_count cfg /\ depth_usage es <= max_container_depth cfg /\
-    length_ok cfg (N.max (whole_array_usage es) (chunked_array_usage es)) = true /\
+    length_ok cfg (whole_array_usage es) = true /\ length_ok cfg (chunked_array_usage es) = true /\
     ident_usage es <= max_identifier_length cfg /\ marker_usage es <= max_local_reference_count cfg.
-(* Missing from the proved part: (1) the array-size limit on chunked arrays when a limit is configured (the
-   running total is compared per chunk header, with 64-bit wrap-around); (2) necessity of the marker limit,
-   which the current code violates: *)
+(* The one part that is missing from the proved statements is the necessity of the marker limit, and the
+   current code violates it (a marker on a chunked string in map-key position is never registered): *)
 Theorem C14_marker_limit_necessary_refuted :
   exists cfg es, accepts_document cfg es = true /\ max_local_reference_count cfg < marker_usage es.
 Proof. exact marker_limit_necessary_refuted. Qed.
@@ -86,21 +90,27 @@ Print Assumptions C14_marker_limit_necessary_refuted.
 Theorem C14_limits_exact_full_refuted : ~ C14_limits_exact_full.
 Proof.
   intro F. destruct marker_limit_necessary_refuted as [cfg [es [A M]]].
-  destruct (proj1 (F cfg es) A) as [_ [_ [_ [_ [_ X]]]]]. apply N.lt_nge in M. contradiction.
+  destruct (proj1 (F cfg es) A) as [_ [_ [_ [_ [_ [_ X]]]]]]. apply N.lt_nge in M. contradiction.
 Qed.
 Print Assumptions C14_limits_exact_full_refuted.
 
-(* Non-vacuity / off-by-one examples on one document: depth 2, 5 objects, identifier length 3, array of 4 bytes. *)
+(* Non-vacuity / off-by-one examples on one document: depth 2, 7 objects, identifier length 3, a whole array
+   of 4 bytes, a chunked array of 2 + 3 bytes. *)
 Definition C14_doc : list event :=
-  [EBeginDoc; EVersion 0; EList; EMap; EPosInt 1; EMarker [97;98;99]; EStringArray AT_String [1;2;3;4]; EEnd; EEnd; EEndDoc].
+  [EBeginDoc; EVersion 0; EList; EMap; EPosInt 1; EMarker [97;98;99]; EStringArray AT_String [1;2;3;4]; EEnd;
+   EArrayBegin AT_Uint8; EArrayChunk 2 true; EArrayData [1;2]; EArrayChunk 3 false; EArrayData [3]; EArrayData [4;5];
+   EEnd; EEndDoc].
 Definition C14_cfg (o d a i : N) : rcfg :=
   {| max_object_count := o; max_container_depth := d; max_array_size_bytes := a; max_identifier_length := i;
      max_local_reference_count := 1; expected_version := 0 |}.
-Example C14_usage : (object_usage C14_doc, depth_usage C14_doc, whole_array_usage C14_doc, ident_usage C14_doc, marker_usage C14_doc) = (5, 2, 4, 3, 1).
+Example C14_usage :
+  (object_usage C14_doc, depth_usage C14_doc, whole_array_usage C14_doc, chunked_array_usage C14_doc,
+   ident_usage C14_doc, marker_usage C14_doc) = (6, 2, 4, 5, 3, 1).
 Proof. vm_compute. reflexivity. Qed.
-Example C14_at_usage : accepts_document (C14_cfg 5 2 4 3) C14_doc = true.
+Example C14_at_usage : accepts_document (C14_cfg 6 2 5 3) C14_doc = true.
 Proof. vm_compute. reflexivity. Qed.
 Example C14_below_usage :
-  (rejected_at (C14_cfg 4 2 4 3) C14_doc, rejected_at (C14_cfg 5 1 4 3) C14_doc,
-   rejected_at (C14_cfg 5 2 3 3) C14_doc, rejected_at (C14_cfg 5 2 4 2) C14_doc) = (Some 6, Some 3, Some 6, Some 5).
+  (rejected_at (C14_cfg 5 2 5 3) C14_doc, rejected_at (C14_cfg 6 1 5 3) C14_doc,
+   rejected_at (C14_cfg 6 2 4 3) C14_doc, rejected_at (C14_cfg 6 2 3 3) C14_doc, rejected_at (C14_cfg 6 2 5 2) C14_doc)
+  = (Some 8, Some 3, Some 11, Some 6, Some 5).
 Proof. vm_compute. reflexivity. Qed.
